@@ -507,6 +507,16 @@ func translateTree(fi *fileInfo, fd *ast.FuncDecl, sp exprSpec) (string, error) 
 	}
 	var rets []retT
 	var kinds []int // per exit: 1 return, 2 continue, 3 break, 4 marked effect
+	var markIdx [][2]int
+	whichMark := func(st ast.Stmt) int {
+		t := norm(printNode(fi.fset, st))
+		for i, mk := range sp.Marks {
+			if mk != "" && strings.Contains(t, norm(mk)) {
+				return i + 1
+			}
+		}
+		return 0
+	}
 	var leafDoc []string
 	var number func(n ast.Node, inLoop bool)
 	number = func(n ast.Node, inLoop bool) {
@@ -543,6 +553,7 @@ func translateTree(fi *fileInfo, fd *ast.FuncDecl, sp exprSpec) (string, error) 
 				if st, ok := m.(ast.Stmt); ok && isMarked(st) {
 					leaf[st.Pos()] = len(leaf) + 1
 					kinds = append(kinds, 4)
+					markIdx = append(markIdx, [2]int{len(leaf), whichMark(st)})
 					leafDoc = append(leafDoc, fmt.Sprintf("%d = line %d reached `%s`", len(leaf), fi.fset.Position(st.Pos()).Line, strings.ReplaceAll(strings.SplitN(printNode(fi.fset, st), "\n", 2)[0], "-/", "- /")))
 				}
 			}
@@ -721,7 +732,7 @@ func translateTree(fi *fileInfo, fd *ast.FuncDecl, sp exprSpec) (string, error) 
 				maxRes = len(rt.r.Results)
 			}
 		}
-		for i := 0; i < maxRes && maxRes > 1; i++ {
+		for i := 0; i < maxRes; i++ {
 			var arms []string
 			for _, rt := range rets {
 				isNil := "false"
@@ -734,6 +745,58 @@ func translateTree(fi *fileInfo, fd *ast.FuncDecl, sp exprSpec) (string, error) 
 			}
 			out += fmt.Sprintf("/-- whether result %d of the return statement at each exit of `%s` is the literal `nil` -/\ndef %sNil%d (exit : Nat) : Bool :=\n  match exit with\n%s\n  | _ => false\n\n", i+1, sp.Lean, sp.Lean, i+1, strings.Join(arms, "\n"))
 		}
+	}
+	// the translatable i-th results of multi-result returns
+	if len(rets) > 0 {
+		maxRes := 0
+		for _, rt := range rets {
+			if len(rt.r.Results) > maxRes {
+				maxRes = len(rt.r.Results)
+			}
+		}
+		for i := 0; i < maxRes && maxRes > 1; i++ {
+			var arms []string
+			okAll, anyBool, anyNum := true, false, false
+			for _, rt := range rets {
+				if i >= len(rt.r.Results) {
+					okAll = false
+					break
+				}
+				v, isBool, err := trExpr(fi.fset, rt.r.Results[i], vars, used)
+				if err != nil {
+					okAll = false
+					break
+				}
+				if isBool {
+					anyBool = true
+				} else {
+					anyNum = true
+				}
+				arms = append(arms, fmt.Sprintf("  | %d => %s", rt.n, v))
+			}
+			if okAll && anyBool != anyNum {
+				ty, dflt := "Bool", "true"
+				if anyNum {
+					ty, dflt = "Nat", "0"
+				}
+				params2 := ""
+				for _, v := range sp.Vars {
+					if v[2] != "const" {
+						params2 += fmt.Sprintf(" (%s : %s)", v[1], v[2])
+					}
+				}
+				out += fmt.Sprintf("/-- result %d of the return statement at each exit of `%s` -/\ndef %sVal%d%s (exit : Nat) : %s :=\n  match exit with\n%s\n  | _ => %s\n\n",
+					i+1, sp.Lean, sp.Lean, i+1, params2, ty, strings.Join(arms, "\n"), dflt)
+			}
+		}
+	}
+	// which mark was reached at each marked exit
+	if len(markIdx) > 0 {
+		var arms []string
+		for _, mi := range markIdx {
+			arms = append(arms, fmt.Sprintf("  | %d => %d", mi[0], mi[1]))
+		}
+		out += fmt.Sprintf("/-- which of the spec's marks (1-based, in the order of the `marks` list) was reached at each marked exit of `%s` -/\ndef %sMark (exit : Nat) : Nat :=\n  match exit with\n%s\n  | _ => 0\n\n", sp.Lean, sp.Lean, strings.Join(arms, "\n"))
 	}
 	// the value returned at each exit, when every return statement has one result and all of them translate to one type
 	if len(rets) > 0 {
